@@ -34,7 +34,12 @@ type Solver struct {
 	log      io.Writer
 	dead     bool
 	lastErr  string
+	lastStandalone bool
 	curTimeout int
+	frames     [][]string // mirror of declarations and assertions per push level
+	fallbackMs int
+	fpFrames   []int
+	Fallbacks  int
 }
 
 func solverArgs(kind string, timeoutMs int) (string, []string) {
@@ -64,7 +69,7 @@ func NewSolver(kind string, timeoutMs int, logPath string) (*Solver, error) {
 	if err := cmd.Start(); err != nil {
 		return nil, err
 	}
-	s := &Solver{kind: kind, cmd: cmd, in: bufio.NewWriterSize(stdin, 1<<16), out: bufio.NewReaderSize(stdout, 1<<16), declared: map[string]int{}}
+	s := &Solver{kind: kind, cmd: cmd, in: bufio.NewWriterSize(stdin, 1<<16), out: bufio.NewReaderSize(stdout, 1<<16), declared: map[string]int{}, frames: [][]string{nil}, fallbackMs: 8 * timeoutMs}
 	if logPath != "" {
 		f, err := os.Create(logPath)
 		if err == nil {
@@ -115,6 +120,11 @@ func (s *Solver) SetTimeout(ms int) {
 
 func (s *Solver) Push() {
 	s.level++
+	s.frames = append(s.frames, nil)
+	for len(s.fpFrames) < len(s.frames) {
+		s.fpFrames = append(s.fpFrames, 0)
+	}
+	s.fpFrames[len(s.frames)-1] = 0
 	s.send("(push 1)")
 }
 
@@ -123,6 +133,10 @@ func (s *Solver) Pop(n int) {
 		return
 	}
 	s.level -= n
+	s.frames = s.frames[:len(s.frames)-n]
+	if len(s.fpFrames) > len(s.frames) {
+		s.fpFrames = s.fpFrames[:len(s.frames)]
+	}
 	s.send(fmt.Sprintf("(pop %d)", n))
 	for k, l := range s.declared {
 		if l > s.level {
@@ -135,13 +149,17 @@ func (s *Solver) declare(vars []*Term, ufs map[string]*Term) {
 	for _, v := range vars {
 		if _, ok := s.declared[v.name]; !ok {
 			s.declared[v.name] = s.level
-			s.send(fmt.Sprintf("(declare-const %s %s)", v.name, v.sort))
+			line := fmt.Sprintf("(declare-const %s %s)", v.name, v.sort)
+			s.frames[len(s.frames)-1] = append(s.frames[len(s.frames)-1], line)
+			s.send(line)
 		}
 	}
 	for name, t := range ufs {
 		if _, ok := s.declared[name]; !ok {
 			s.declared[name] = s.level
-			s.send(fmt.Sprintf("(declare-fun %s (%s) %s)", name, t.a0.sort, t.sort))
+			line := fmt.Sprintf("(declare-fun %s (%s) %s)", name, t.a0.sort, t.sort)
+			s.frames[len(s.frames)-1] = append(s.frames[len(s.frames)-1], line)
+			s.send(line)
 		}
 	}
 }
@@ -152,7 +170,15 @@ func (s *Solver) Assert(t *Term) {
 	}
 	txt, vars, ufs := PrintTerm(t)
 	s.declare(vars, ufs)
-	s.send("(assert " + txt + ")")
+	line := "(assert " + txt + ")"
+	s.frames[len(s.frames)-1] = append(s.frames[len(s.frames)-1], line)
+	if strings.Contains(txt, "fp.") || strings.Contains(txt, "to_fp") {
+		for len(s.fpFrames) < len(s.frames) {
+			s.fpFrames = append(s.fpFrames, 0)
+		}
+		s.fpFrames[len(s.frames)-1]++
+	}
+	s.send(line)
 }
 
 func (s *Solver) readLine() (string, error) {
@@ -173,8 +199,114 @@ func (s *Solver) readLine() (string, error) {
 	}
 }
 
-// Check returns "sat", "unsat" or "unknown". Any solver error is reported as "unknown".
+// Check returns "sat", "unsat" or "unknown". The incremental answer is used when there is one;
+// on "unknown" (z3's incremental core is much weaker on floating point than its one-shot
+// tactics) the current assertion stack is re-solved by a fresh one-shot solver process.
 func (s *Solver) Check() string {
+	// floating-point content: give the incremental core only a short try
+	if s.kind != "cvc5" && s.stackHasFP() {
+		saved := s.curTimeout
+		if saved > 1000 || saved == 0 {
+			s.SetTimeout(1000)
+			r := s.checkWithFallback()
+			s.SetTimeout(saved)
+			return r
+		}
+	}
+	return s.checkWithFallback()
+}
+
+func (s *Solver) stackHasFP() bool {
+	for len(s.fpFrames) < len(s.frames) {
+		s.fpFrames = append(s.fpFrames, 0)
+	}
+	for i := range s.frames {
+		if s.fpFrames[i] > 0 {
+			return true
+		}
+	}
+	return false
+}
+
+func (s *Solver) checkWithFallback() string {
+	r := s.checkInc()
+	if r != "unknown" || s.kind == "cvc5" {
+		s.lastStandalone = false
+		return r
+	}
+	r2, _ := s.standalone(nil)
+	s.Fallbacks++
+	if r2 == "sat" || r2 == "unsat" {
+		s.Stats.Unknown--
+		if r2 == "sat" {
+			s.Stats.Sat++
+		} else {
+			s.Stats.Unsat++
+		}
+		s.lastStandalone = r2 == "sat"
+		return r2
+	}
+	return "unknown"
+}
+
+// standalone solves the mirrored assertion stack in a fresh process; when terms are given and the
+// answer is sat it also evaluates them.
+func (s *Solver) standalone(ts []*Term) (string, []uint64) {
+	var sb strings.Builder
+	sb.WriteString("(set-option :produce-models true)\n")
+	for _, fr := range s.frames {
+		for _, l := range fr {
+			sb.WriteString(l)
+			sb.WriteByte('\n')
+		}
+	}
+	sb.WriteString("(check-sat)\n")
+	if len(ts) > 0 {
+		sb.WriteString("(get-value (")
+		for _, t := range ts {
+			txt, _, _ := PrintTerm(t)
+			sb.WriteString(txt)
+			sb.WriteByte(' ')
+		}
+		sb.WriteString("))\n")
+	}
+	f, err := os.CreateTemp("", "gosmt-q-*.smt2")
+	if err != nil {
+		return "unknown", nil
+	}
+	defer os.Remove(f.Name())
+	f.WriteString(sb.String())
+	f.Close()
+	bin := "z3"
+	if s.kind == "z3-new" {
+		bin = "z3-new"
+	}
+	t0 := time.Now()
+	out, _ := exec.Command(bin, fmt.Sprintf("-T:%d", s.fallbackMs/1000+1), f.Name()).CombinedOutput()
+	s.Stats.Seconds += time.Since(t0).Seconds()
+	text := string(out)
+	if strings.Contains(text, "(error") {
+		s.lastErr = strings.TrimSpace(text)
+		return "unknown", nil
+	}
+	lines := strings.SplitN(strings.TrimSpace(text), "\n", 2)
+	switch strings.TrimSpace(lines[0]) {
+	case "unsat":
+		return "unsat", nil
+	case "sat":
+		if len(ts) > 0 && len(lines) == 2 {
+			vals, err := parseValues(lines[1])
+			if err == nil && len(vals) == len(ts) {
+				return "sat", vals
+			}
+			return "sat", nil
+		}
+		return "sat", nil
+	}
+	return "unknown", nil
+}
+
+func (s *Solver) checkInc() string {
 	s.send("(check-sat)")
 	s.in.Flush()
 	t0 := time.Now()
@@ -241,6 +373,18 @@ func (s *Solver) CheckWith(t *Term) string {
 
 // GetValues evaluates BV/Bool terms in the current model (must follow a sat Check at the same stack).
 func (s *Solver) GetValues(ts []*Term) ([]uint64, error) {
+	if s.lastStandalone {
+		// the incremental process has no model: evaluate in a one-shot run
+		for _, t := range ts {
+			_, vars, ufs := PrintTerm(t)
+			s.declare(vars, ufs)
+		}
+		r, vals := s.standalone(ts)
+		if r != "sat" || vals == nil {
+			return nil, fmt.Errorf("one-shot model evaluation failed (%s)", r)
+		}
+		return vals, nil
+	}
 	out := make([]uint64, len(ts))
 	// batch in chunks
 	for start := 0; start < len(ts); start += 64 {
